@@ -35,7 +35,7 @@ def _settings():
     out = []
     for field in ("t", None):
         for inc in ((True, False), (False, True), (True, True)):
-            for tagger in ((None, "single", "list") if field else (None,)):
+            for tagger in ((None, "single", "list", "single_none") if field else (None,)):
                 out.append((field, inc[0], inc[1], tagger))
                 if tagger is None and inc[0]:
                     # Sub1 is an ABSTRACT intermediate class (ABC with an abstract method, no tag of its own); Sub3 below it is concrete
@@ -62,6 +62,8 @@ def tags_of(cname, tagger):
         return [TAG[cname]]
     if tagger == "single":
         return [cname.lower()]
+    if tagger == "single_none":
+        return [None if cname == "Sub2" else cname.lower()]      # None is a tag like any other (JSON null)
     return [cname.lower(), cname.upper()]
 
 
@@ -78,6 +80,8 @@ class Fam:
             ns["_tagger"] = lambda cls: cls.__name__.lower()
         elif tagger == "list":
             ns["_tagger"] = lambda cls: [cls.__name__.lower(), cls.__name__.upper()]
+        elif tagger == "single_none":
+            ns["_tagger"] = lambda cls: None if cls.__name__ == "Sub2" else cls.__name__.lower()
         disc = (f"Discriminator(field={field!r}, include_subtypes={subt}, include_supertypes={supt}"
                 + (", variant_tagger_fn=_tagger" if tagger else "") + ")")
         self.disc_src = disc
